@@ -10,13 +10,14 @@ import (
 	"github.com/hashicorp/nodeenrollment"
 	"github.com/hashicorp/nodeenrollment/types"
 	"github.com/hashicorp/nodeenrollment/zzverif/vf"
+	"github.com/hashicorp/nodeenrollment/zzverif/vfs"
 	"google.golang.org/protobuf/proto"
 )
 
 func init() { VfHarnesses["VerifC13TokenFetchFaults"] = VerifC13TokenFetchFaults }
 
 type vfFaulty struct {
-	inner  *vfStorage
+	inner  *vfs.Storage
 	n      int
 	failAt int
 	kind   int
@@ -68,12 +69,12 @@ func (f *vfFaulty) List(ctx context.Context, m proto.Message) ([]string, error) 
 // FetchNodeCredentials with a valid token.
 func VerifC13TokenFetchFaults() {
 	ctx := context.Background()
-	inner := &vfStorage{}
+	inner := &vfs.Storage{}
 	t0 := vf.Now()
-	vfStoreRoots(ctx, inner, t0)
+	vfs.StoreRoots(ctx, inner, t0)
 	_, token, err := CreateServerLedActivationToken(ctx, inner, &types.ServerLedRegistrationRequest{})
 	vf.Assert("token-created", err == nil)
-	creds, err := types.NewNodeCredentials(ctx, &vfStorage{}, nodeenrollment.WithActivationToken(token))
+	creds, err := types.NewNodeCredentials(ctx, &vfs.Storage{}, nodeenrollment.WithActivationToken(token))
 	vf.Assert("node-creds", err == nil)
 	req, err := creds.CreateFetchNodeCredentialsRequest(ctx, nodeenrollment.WithActivationToken(token))
 	vf.Assert("fetch-req", err == nil)
@@ -85,7 +86,7 @@ func VerifC13TokenFetchFaults() {
 	vf.Assume(vf.TimeLE(vf.Now(), t0.Add(2*time.Second)))
 	vf.Assert("op-count-within-bound", f.n <= maxOps)
 	issued := err == nil && resp != nil && len(resp.EncryptedNodeCredentials) > 0
-	records, tokens := inner.count(1), inner.count(4)
+	records, tokens := inner.Count(vfs.KindNode), inner.Count(vfs.KindToken)
 	if f.hit {
 		vf.Reach("fault-hit")
 	}
